@@ -23,6 +23,13 @@ expected shortfall, SGD / Adam as class or as ONE reused instance) are run on th
 operation, on the series read off the real instruments after every (re)simulation (draws of compute_loss / price / fit re-created under the
 operation's seed): every answer (hedge tensor, P&L / portfolio vector, loss, price, parameters after fit), the parameters after every operation and
 the last time step of the prev_output buffer (state-dependent feature lists) are compared: shapes exactly, values to 1e-9 relative (max-norm).
+
+input classes of the history parts (I, II, IV and the session): histories that change the hedger's OTHER state - a backward pass through the hedger's loss before fit
+(hedger.compute_loss(d).backward(): gradients left on the parameters; fit = Adam, 2 epochs, compared with the fit of a fresh hedger under the same seed: parameters
+bitwise, returned losses), eval() / train(), fit(validation=True) (leaves the hedger in evaluation mode); models built around pfhedge's clamp MODULES (nn.LeakyClamp,
+nn.Clamp; BandNet).  A computation of a hedger left in evaluation mode is compared with a fresh hedger in the same mode AND with a fresh hedger as constructed
+(training mode): no module used here is documented to depend on the mode.  The session model is told a loss-backward as compute_loss, fit with validation with its
+validation draws, and is not told eval() / train() (it has no mode).  Fixed beginnings / model kinds by history index: every class occurs for every seed.
 """
 import copy
 import math
@@ -97,6 +104,37 @@ def check(ctx):
         def forward(self, x):
             x.mul_(0.5)
             return x[..., :1].clone()
+
+    class BandNet(torch.nn.Module):
+        """a user model of the no-transaction-band kind built around one of pfhedge's clamp MODULES (nn.LeakyClamp / nn.Clamp): the previous hedge (the
+        last input, when the hedger is state-dependent; else the body's first output) is clamped into a narrow band [lo, lo + |w| / 4] computed by the body, so
+        that most inputs lie outside it.  The documentation of both modules defines the output by the input and the bounds alone: it is the same in
+        training and in evaluation mode, like that of Linear / Tanh / ReLU (and unlike Dropout / BatchNorm, which no model here contains)"""
+        def __init__(self, nin, leaky, use_prev, dtype):
+            super().__init__()
+            self.body = torch.nn.Sequential(torch.nn.Linear(nin, 3, dtype=dtype), torch.nn.Tanh(), torch.nn.Linear(3, 3, dtype=dtype))
+            self.clamp = nn.LeakyClamp() if leaky else nn.Clamp()
+            self.use_prev = use_prev
+
+        def forward(self, x):
+            o = self.body(x)
+            lo = o[..., [1]]
+            return self.clamp(x[..., [-1]] if self.use_prev else o[..., [0]], min=lo, max=lo + 0.25 * o[..., [2]].abs())
+
+    MODEL_KINDS = ["mlp", "band:LeakyClamp", "band:Clamp"]
+
+    MODE_BUDGET = 3          # per history: that many computations in evaluation mode are also compared with a fresh hedger in training mode
+
+    def fresh_hedgers(used, build, budget):
+        """the fresh hedgers a used one is compared with: `build()` constructs a new hedger holding copies of the used one's parameters and criterion.
+        ("same-mode", in the used one's training / evaluation mode) and - if the history left the used hedger in evaluation mode (fit with validation,
+        eval()) - also ("train-mode", as constructed): every module of every model here is documented as independent of the mode.  `budget` = [n]: the
+        train-mode comparison is made for the first n evaluation-mode computations of a history (cost)"""
+        out = [("same-mode", build().train(used.training))]
+        if not used.training and budget[0] > 0:
+            budget[0] -= 1
+            out.append(("train-mode", build().train()))
+        return out
 
     # ---- every public functional of pfhedge.nn.functional on caller-owned tensors of several memory layouts: the arguments are built
     # from the signature (parameter name -> role), so a functional added later is swept too (or reported as unmapped)
@@ -276,12 +314,24 @@ def check(ctx):
     ctx.extra["functionals_swept"] = len(FN_PUBLIC) - len(unmapped)
     ctx.extra["functionals_unmapped"] = sorted(unmapped)
     # ------------------------------------------------------------------ history independence
+    # one hedger, several derivatives; besides the computations the history contains what changes the hedger's OTHER state: a backward pass through
+    # its loss (gradient inspection, a hand-written training step: leaves .grad on the parameters), eval() / train(), fit with validation (leaves the
+    # hedger in evaluation mode).  Every computation is compared with fresh hedgers holding the same parameters (in the same mode; after a history that
+    # ends in evaluation mode also in the mode a hedger is constructed in), every fit (Adam, 2 epochs) with the fit of a fresh hedger under the same seed.
+    # The first histories have fixed beginnings (model kind x beginning), so that each of these classes occurs for every seed
+    HIST_BEGIN = [["loss_backward", "fit", "compute_pl"], ["eval", "compute_hedge", "compute_pl", "price"], ["fit_val", "compute_hedge", "compute_loss"], []]
     nh = 25 if ctx.tier == "quick" else 400
     for it in range(nh):
         torch.manual_seed(g.randint(0, 10 ** 6))
         stateful = g.chance(0.6)
+        kind = g.choice(MODEL_KINDS)
+        if it < 12:
+            kind = MODEL_KINDS[(it // 4) % 3]
         feats = ["moneyness", "time_to_maturity", "volatility"] + (["prev_hedge"] if stateful else [])
-        base = torch.nn.Sequential(torch.nn.Linear(len(feats), 4, dtype=dt), torch.nn.ReLU(), torch.nn.Linear(4, 1, dtype=dt))
+        if kind == "mlp":
+            base = torch.nn.Sequential(torch.nn.Linear(len(feats), 4, dtype=dt), torch.nn.ReLU(), torch.nn.Linear(4, 1, dtype=dt))
+        else:
+            base = BandNet(len(feats), kind == "band:LeakyClamp", stateful, dt)
         crit = g.choice([nn.EntropicRiskMeasure(), nn.ExpectedShortfall(0.3)])
         hedger = Hedger(base, feats, criterion=crit)
         derivs = []
@@ -292,12 +342,18 @@ def check(ctx):
         for d_ in derivs:
             d_.simulate(n_paths=g.choice([1, 3, 8]))
         L = g.randint(3, 10 if ctx.tier == "quick" else 25)
-        for _ in range(L):
-            ops.append((g.choice(["simulate", "compute_hedge", "compute_pl", "compute_loss", "price", "fit", "compute_hedge", "compute_pl"]),
-                        g.randint(0, len(derivs) - 1), g.choice([1, 2, 5, 8]), g.randint(0, 10 ** 6)))
-        case = {"stateful": stateful, "ops": [(o[0], o[1], o[2]) for o in ops], "n_derivatives": len(derivs)}
+        begin = HIST_BEGIN[it % 4] if it < 12 else []
+        names_ = begin + [g.choice(["simulate", "compute_hedge", "compute_pl", "compute_loss", "price", "fit", "compute_hedge", "compute_pl",
+                                                                    "loss_backward", "fit_val", "eval", "train"]) for _ in range(max(L - len(begin), 1))]
+        for nm_ in names_:
+            ops.append((nm_, g.randint(0, len(derivs) - 1), g.choice([1, 2, 5, 8]), g.randint(0, 10 ** 6)))
+        case = {"stateful": stateful, "model": kind, "ops": [(o[0], o[1], o[2]) for o in ops], "n_derivatives": len(derivs)}
         ctx.case(case, nontrivial=True, tag="history")
         ctx.traces += 1
+        ctx.stats[f"hist:model={kind}"] += 1
+        mk_fresh = lambda: Hedger(copy.deepcopy(hedger.model), feats, criterion=copy.deepcopy(crit))
+        budget = [MODE_BUDGET]
+        eq = lambda v1, v2: v1.shape == v2.shape and bool(((v1 == v2) | (v1.isnan() & v2.isnan())).all())
         for i, (op, di, npaths, seed) in enumerate(ops):
             d_ = derivs[di]
             ctx.stats[f"hist:{op}"] += 1
@@ -305,32 +361,65 @@ def check(ctx):
                 torch.manual_seed(seed)
                 d_.simulate(n_paths=npaths)
                 continue
-            if op == "fit":
-                torch.manual_seed(seed)
-                hedger.fit(d_, n_epochs=1, n_paths=npaths, verbose=False, validation=False)
+            if op in ("eval", "train"):
+                hedger.train(op == "train")
                 continue
-            fresh = Hedger(copy.deepcopy(hedger.model), feats, criterion=copy.deepcopy(crit))
-            outs = []
-            for hh in (hedger, fresh):
+            if op == "loss_backward":
+                torch.manual_seed(seed)
+                hedger.compute_loss(d_, n_paths=npaths).backward()          # leaves .grad on the parameters; changes no parameter
+                continue
+            if op in ("fit", "fit_val"):
+                fresh = mk_fresh().train(hedger.training)
+                stale = any(p_.grad is not None and bool((p_.grad != 0).any()) for p_ in hedger.model.parameters())
+                outs = []
+                for hh in (hedger, fresh):
+                    torch.manual_seed(seed)
+                    st, v, _ = call_impl(hh.fit, d_, n_epochs=2, n_paths=npaths, verbose=False, validation=op == "fit_val")
+                    outs.append((st, v, [p_.detach().clone() for p_ in hh.model.parameters()]))
+                (s1, v1, p1), (s2, v2, p2) = outs
+                ctx.stats[f"hist:fit:stale_grad={stale}"] += 1
+                if s1 != s2 or (s1 == "ok" and (any(not eq(a_, b_) for a_, b_ in zip(p1, p2)) or str(v1) != str(v2))):
+                    ctx.fail("the result of fit (parameters, returned validation losses) depends on what the hedger was used for before - a backward pass through its "
+                             "loss that left gradients on the parameters, its mode, earlier fits - : it differs from the fit of a fresh hedger with the same "
+                             "parameters and criterion under the same seed", case | {"step": i, "op": op, "gradients_present_before_fit": stale},
+                             key="history:fit" + (":stale-grad" if stale else ""),
+                             detail={"used": str(v1)[:100], "fresh": str(v2)[:100],
+                                     "max_abs_parameter_diff": max(float((a_ - b_).abs().max()) for a_, b_ in zip(p1, p2)) if s1 == s2 == "ok" else None})
+                    break
+                continue
+            failed = False
+            for label, fresh in [("used", hedger)] + fresh_hedgers(hedger, mk_fresh, budget):
                 torch.manual_seed(seed)
                 with torch.no_grad():
                     if op == "compute_hedge":
-                        st, v, mut = call_impl(hh.compute_hedge, d_, watch=[("derivative", d_)])
+                        st, v, mut = call_impl(fresh.compute_hedge, d_, watch=[("derivative", d_)])
                     elif op == "compute_pl":
-                        st, v, mut = call_impl(hh.compute_pl, d_, watch=[("derivative", d_)])
+                        st, v, mut = call_impl(fresh.compute_pl, d_, watch=[("derivative", d_)])
                     elif op == "compute_loss":
-                        st, v, mut = call_impl(hh.compute_loss, d_, n_paths=npaths)
+                        st, v, mut = call_impl(fresh.compute_loss, d_, n_paths=npaths)
                     else:
-                        st, v, mut = call_impl(hh.price, d_, n_paths=npaths)
+                        st, v, mut = call_impl(fresh.price, d_, n_paths=npaths)
                 if mut and op in ("compute_hedge", "compute_pl"):
                     ctx.fail(f"Hedger.{op} modified market data in place", case | {"step": i}, key=f"mutation:Hedger.{op}", detail=mut)
-                outs.append((st, v))
-            (s1, v1), (s2, v2) = outs
-            same = s1 == s2 and (s1 != "ok" or (v1.shape == v2.shape and bool(((v1 == v2) | (v1.isnan() & v2.isnan())).all())))
-            if not same:
-                ctx.fail("the result of a hedging operation depends on what the hedger was used with before (differs from a fresh hedger with the same parameters)",
-                         case | {"step": i, "op": op}, key=f"history:{op}",
-                         detail={"used": str(v1)[:200], "fresh": str(v2)[:200]})
+                if label == "used":
+                    s1, v1 = st, v
+                    continue
+                s2, v2 = st, v
+                same = s1 == s2 and (s1 != "ok" or eq(v1, v2))
+                ctx.stats[f"hist:compared:{label}"] += 1
+                if not same:
+                    if label == "same-mode":
+                        ctx.fail("the result of a hedging operation depends on what the hedger was used with before (differs from a fresh hedger with the same parameters)",
+                                 case | {"step": i, "op": op}, key=f"history:{op}",
+                                 detail={"used": str(v1)[:200], "fresh": str(v2)[:200]})
+                    else:
+                        ctx.fail("the result of a hedging operation depends on the history having left the hedger in evaluation mode (fit with validation / eval()): it "
+                                 "differs from a fresh hedger with the same parameters as constructed (training mode), although no module of the model is documented "
+                                 "to depend on the mode", case | {"step": i, "op": op}, key=f"history:mode:{op}",
+                                 detail={"used(eval)": str(v1)[:200], "fresh(train)": str(v2)[:200]})
+                    failed = True
+                    break
+            if failed:
                 break
     def same_result(a, b):
         (s1, v1), (s2, v2) = a, b
@@ -359,7 +448,9 @@ def check(ctx):
             dkw = {"call": True if oname in ("LookbackOption", "AmericanBinaryOption") else g.chance(0.6), "strike": g.choice([0.95, 1.0, 1.05]),
                    "maturity": g.choice([3, 5, 8]) * step}
             listed = g.choice([None, None, (2.0, 0.25)])
-            model_kind = g.choice(["BlackScholes", "WhalleyWilmott", "linear", "linear+prev_hedge"])
+            model_kind = g.choice(["BlackScholes", "WhalleyWilmott", "linear", "linear+prev_hedge", "band:LeakyClamp", "band:LeakyClamp+prev_hedge", "band:Clamp+prev_hedge"])
+            if it < 4:          # for every seed: the clamp modules (and the BS module) through a history that leaves the hedger in evaluation mode
+                model_kind = ["band:LeakyClamp+prev_hedge", "band:LeakyClamp", "band:Clamp+prev_hedge", "WhalleyWilmott"][it]
             dspecs.append((oname, dkw, listed, model_kind))
 
         def mk_d(u_, spec):
@@ -384,14 +475,20 @@ def check(ctx):
         for d_, sp in zip(d_used, dspecs):
             torch.manual_seed(g.randint(0, 10 ** 6))
             nin = 4 if sp[3].endswith("prev_hedge") else 3
-            h_used.append(mk_h(d_, sp, model=torch.nn.Sequential(torch.nn.Linear(nin, 3, dtype=cur), torch.nn.Tanh(), torch.nn.Linear(3, 1, dtype=cur))))
+            h_used.append(mk_h(d_, sp, model=BandNet(nin, "LeakyClamp" in sp[3], sp[3].endswith("prev_hedge"), cur) if sp[3].startswith("band") else
+                               torch.nn.Sequential(torch.nn.Linear(nin, 3, dtype=cur), torch.nn.Tanh(), torch.nn.Linear(3, 1, dtype=cur))))
         hops = ["compute_hedge", "compute_pl", "compute_hedge", "compute_pl", "compute_loss"]
         di0 = g.randint(0, len(dspecs) - 1)
         # every history starts with: simulate, hedge, change of dtype; then a random tail.  op = (name, derivative, n_paths | dtype, seed)
         ops = [("simulate", di0, g.choice([1, 3, 8]), g.randint(0, 10 ** 6)), (g.choice(hops[:2]), di0, 2, g.randint(0, 10 ** 6)),
                ("to", 0, "float64" if cur == f32 else "float32", 0)]
+        if it < 8:          # eval() of the long-lived hedgers, then hedging
+            ops += [("eval", 0, None, 0), (g.choice(hops[:2]), di0, 2, g.randint(0, 10 ** 6))]
         for _ in range(g.randint(3, 7 if ctx.tier == "quick" else 20)):
-            op = g.choice(["simulate", "to", "to"] + hops)
+            op = g.choice(["simulate", "to", "to", "eval", "train"] + hops)
+            if op in ("eval", "train"):
+                ops.append((op, 0, None, 0))
+                continue
             if op == "to":
                 ops.append((op, 0, g.choice(["float32", "float64"]), 0))
             else:
@@ -400,6 +497,7 @@ def check(ctx):
                 "ops": [o[:3] for o in ops]}
         ctx.case(case, nontrivial=True, tag="instrument_reuse")
         ctx.traces += 1
+        budget = [MODE_BUDGET]
         for i, (op, di, arg, seed) in enumerate(ops):
             ctx.stats[f"reuse:{op}"] += 1
             if op == "simulate":
@@ -412,14 +510,19 @@ def check(ctx):
                 for h_ in h_used:
                     h_.to(cur)
                 continue
+            if op in ("eval", "train"):
+                for h_ in h_used:
+                    h_.train(op == "train")
+                continue
             # newly constructed instruments holding bit-identical copies of the current buffers
             u_new = mk_u(cur)
             for bname, buf in list(u_used.named_buffers()):
                 u_new.register_buffer(bname, buf.detach().clone())
             d_new = mk_d(u_new, dspecs[di])
-            h_new = mk_h(d_new, dspecs[di], model=copy.deepcopy(h_used[di].model))
+            # (new hedgers: in the mode of the used one, and - if that is evaluation mode - also as constructed)
+            h_news = fresh_hedgers(h_used[di], lambda: mk_h(d_new, dspecs[di], model=copy.deepcopy(h_used[di].model)), budget)
             outs = []
-            for hh, dd in ((h_used[di], d_used[di]), (h_new, d_new)):
+            for hh, dd in [(h_used[di], d_used[di])] + [(h_, d_new) for _, h_ in h_news]:
                 torch.manual_seed(seed)
                 if op == "compute_loss":
                     st, v, mut = call_impl(hh.compute_loss, dd, n_paths=arg)
@@ -429,13 +532,23 @@ def check(ctx):
                         ctx.fail(f"Hedger.{op} modified market data in place", case | {"step": i}, key=f"mutation:Hedger.{op}", detail=mut)
                 outs.append((st, v.detach() if isinstance(v, torch.Tensor) else v))
             ctx.stats[f"reuse-result:{outs[0][0]}"] += 1
-            if not same_result(*outs):
+            if not same_result(*outs[:2]):
                 v1, v2 = outs[0][1], outs[1][1]
                 ctx.fail("the result of a hedging operation depends on what the derivative / underlier OBJECTS were used with before (differs from newly "
                          "constructed instruments of the same parameters and dtype holding bit-identical buffers)",
                          case | {"step": i, "op": op, "dtype": str(cur)}, key=f"instrument_history:{op}",
                          detail={"reused": f"{getattr(v1, 'dtype', '')} {str(v1)[:200]}", "fresh": f"{getattr(v2, 'dtype', '')} {str(v2)[:200]}"})
                 break
+            if len(outs) == 3:
+                ctx.stats["reuse:compared_with_train_mode"] += 1
+                if not same_result(outs[0], outs[2]):
+                    v1, v2 = outs[0][1], outs[2][1]
+                    ctx.fail("the result of a hedging operation depends on the history having left the hedger in evaluation mode (eval()): it differs from a newly "
+                             "constructed hedger (training mode) with the same parameters on newly constructed instruments holding bit-identical buffers, although "
+                             "no module of the model is documented to depend on the mode",
+                             case | {"step": i, "op": op, "dtype": str(cur), "model": dspecs[di][3]}, key=f"instrument_history:mode:{op}",
+                             detail={"reused(eval)": f"{getattr(v1, 'dtype', '')} {str(v1)[:200]}", "fresh(train)": f"{getattr(v2, 'dtype', '')} {str(v2)[:200]}"})
+                    break
     # ------------------------------------------------------------------ history independence III: feature OBJECTS (not names) are shared
     from pfhedge.features import FeatureList, ModuleOutput
     VAL_FEATS = [f_ for f_ in BASE_FEATURES if f_ != "empty"]        # "empty" is uninitialised memory: no value to compare
@@ -535,7 +648,7 @@ def check(ctx):
         enc = lambda t: enc_flt([[float(x) for x in r] for r in t.detach().to(f64).tolist()])
         return {"spot": enc(u_.spot), "variance": enc(u_.variance), "volatility": enc(u_.volatility)}
 
-    def hedge_history(g4, modelable):
+    def hedge_history(g4, modelable, idx):
         prim = g4.choice(["BrownianStock", "BrownianStock", "HestonStock", "MertonJumpStock"])
         step = g4.choice([1 / 250, 1 / 100])
         # (model-compared histories: cost rates exactly representable in single precision -- pl() builds torch.tensor(cost) (float32) before casting
@@ -569,8 +682,13 @@ def check(ctx):
         cur = g4.choice([f64, f64, f32]) if not modelable else f64
         torch.manual_seed(g4.randint(0, 10 ** 6))
         opt_used = None
+        # the history also contains what changes the hedger's OTHER state (see history independence I): a backward pass through its loss ("loss_backward":
+        # the loss is an answer like compute_loss's, and .grad stays on the parameters), eval() / train(), fit with validation ("fit_val": leaves the hedger in
+        # evaluation mode).  The model kinds / beginnings rotate with the index of the history, so that every combination occurs for every seed
+        kind4 = MODEL_KINDS[idx % 3] if not modelable else "mlp"
         if not modelable:
-            model4 = torch.nn.Sequential(torch.nn.Linear(len(feats4), 3, dtype=cur), torch.nn.Tanh(), torch.nn.Linear(3, 1, dtype=cur))
+            model4 = (BandNet(len(feats4), kind4 == "band:LeakyClamp", stateful, cur) if kind4 != "mlp" else
+                      torch.nn.Sequential(torch.nn.Linear(len(feats4), 3, dtype=cur), torch.nn.Tanh(), torch.nn.Linear(3, 1, dtype=cur)))
             crit4 = g4.choice([nn.EntropicRiskMeasure(), nn.ExpectedShortfall(0.3), nn.EntropicLoss()])
             fit_kw = lambda hh, used: {}
         else:
@@ -617,8 +735,10 @@ def check(ctx):
             return None if kind == "default" else [u_] if kind == "underlier" else [ls_[int(kind[6:])]]
 
         def rnd_op():
-            op = g4.choice(["simulate", "simulate_stock", "to", "read_listed", "fit"] + HOPS + HOPS)
+            op = g4.choice(["simulate", "simulate_stock", "to", "read_listed", "fit", "fit_val", "loss_backward", "eval", "train"] + HOPS + HOPS)
             di = g4.randint(0, len(dspecs) - 1)
+            if op in ("eval", "train"):
+                return (op, 0, None, 0, 0)
             if op == "to":
                 return (op, g4.choice(["stock", "derivative", "listed"]), g4.choice(["float32", "float64"]) if not modelable else "float64", 0, 0)
             if op == "read_listed":
@@ -630,22 +750,24 @@ def check(ctx):
         # listed price, fit with the listed instrument, re-simulation, calls with the default, the listed price; then a random tail.  op = (name, derivative | owner, hedge kind | dtype, n_paths, seed)
         np0 = g4.choice([2, 5, 8])
         ops = [("simulate", 0, None, np0, g4.randint(0, 10 ** 6)), (g4.choice(HOPS[:3]), 0, "listed0", np0, g4.randint(0, 10 ** 6)),
-               ("simulate", 0, None, np0, g4.randint(0, 10 ** 6)), ("read_listed", 0, None, 0, 0), ("fit", 0, "listed0", g4.choice([2, 5]), g4.randint(0, 10 ** 6)), ("simulate", g4.randint(0, len(dspecs) - 1), None, np0, g4.randint(0, 10 ** 6)),
+               ("simulate", 0, None, np0, g4.randint(0, 10 ** 6)), ("read_listed", 0, None, 0, 0), ("loss_backward", 0, g4.choice(KINDS), g4.choice([2, 5]), g4.randint(0, 10 ** 6)),
+               ("fit" if idx % 2 == 0 else "fit_val", 0, "listed0", g4.choice([2, 5]), g4.randint(0, 10 ** 6)), ("simulate", g4.randint(0, len(dspecs) - 1), None, np0, g4.randint(0, 10 ** 6)),
                (g4.choice(HOPS[:3]), 0, "default", np0, g4.randint(0, 10 ** 6)), ("read_listed", 0, None, 0, 0),
                (g4.choice(HOPS[3:]), 0, "default", g4.choice([2, 5]), g4.randint(0, 10 ** 6))]
         for _ in range(g4.randint(3, 6 if ctx.tier == "quick" else 16)):
             ops.append(rnd_op())
         if modelable:
             # the second derivative shares the underlier: hedge it after the fit on the first one, then the first one again
-            ops[6:6] = [(g4.choice(HOPS[:3]), 1, g4.choice(KINDS), np0, g4.randint(0, 10 ** 6))]
-            ops = [(o[0], o[1], o[2], np_crit if o[0] in ("compute_loss", "price", "fit") else o[3], o[4]) for o in ops]
+            ops[7:7] = [(g4.choice(HOPS[:3]), 1, g4.choice(KINDS), np0, g4.randint(0, 10 ** 6))]
+            ops = [(o[0], o[1], o[2], np_crit if o[0] in ("compute_loss", "price", "fit", "fit_val", "loss_backward") else o[3], o[4]) for o in ops]
         case = {"primary": prim, "params": pkw, "derivatives": dspecs, "listed": lspecs, "stateful": stateful, "dtype0": str(cur),
-                "criterion": type(crit4).__name__, "ops": [o[:4] for o in ops]}
+                "criterion": type(crit4).__name__, "ops": [o[:4] for o in ops]} | ({"model": kind4} if not modelable else {})
         if modelable:
             case |= {"model": "linear" if not hid else f"linear-relu({hid})-linear", "criterion_param": crit_a if crit_name != "es" else 0.3,
                      "optimizer": [optname, okw, "instance" if opt_inst else "class"]}
         ctx.case(case, nontrivial=True, tag="hedge_history" if not modelable else "hedger_session")
         ctx.traces += 1
+        budget = [MODE_BUDGET]
         sops, sexp, model_ok = [], [], modelable          # the history for the model: its operations and what the implementation answered
         href = lambda kind: None if kind == "default" else [["primary", 0]] if kind == "underlier" else [["listed", int(kind[6:])]]
 
@@ -674,6 +796,10 @@ def check(ctx):
                 {"stock": u_used, "derivative": d_used[0], "listed": l_used[-1]}[di].to(cur)
                 h_used.to(cur)
                 continue
+            if op in ("eval", "train"):          # (the model has no mode: it is not told)
+                h_used.train(op == "train")
+                continue
+            mop = {"loss_backward": "compute_loss", "fit_val": "fit"}.get(op, op)          # what the operation is for the model
             # the new world: bit-identical buffers, everything else newly constructed
             u_new = mk_u(cur)
             for bname, buf in list(u_used.named_buffers()):
@@ -682,6 +808,7 @@ def check(ctx):
             l_new = [mk_l(u_new, sp) for sp in lspecs]
             h_new = Hedger(copy.deepcopy(h_used.model), feats4, criterion=copy.deepcopy(crit4))
             h_new.train(h_used.training)
+            was_eval = not h_used.training
             step_case = case | {"step": i, "op": op, "dtype": str(cur)}
             if op == "read_listed":
                 with torch.no_grad():
@@ -697,9 +824,15 @@ def check(ctx):
 
             def run(hh, dd, hedge, label):
                 torch.manual_seed(seed)
-                if op == "fit":
-                    st, v, _ = call_impl(hh.fit, dd, hedge=hedge, n_epochs=2, n_paths=npaths, verbose=False, validation=False, **fit_kw(hh, hh is h_used))
+                if mop == "fit":
+                    st, v, _ = call_impl(hh.fit, dd, hedge=hedge, n_epochs=2, n_paths=npaths, verbose=False, validation=op == "fit_val", **fit_kw(hh, hh is h_used))
                     return (st, torch.cat([p_.detach().reshape(-1) for p_ in hh.model.parameters()]) if st == "ok" else v)
+                if op == "loss_backward":          # gradient inspection / a hand-written training step without the step
+                    st, v, _ = call_impl(hh.compute_loss, dd, hedge=hedge, n_paths=npaths, n_times=2)
+                    if st == "ok":
+                        v.backward()
+                        v = v.detach()
+                    return (st, v)
                 if op in ("compute_loss", "price"):
                     with torch.no_grad():
                         st, v, _ = call_impl(getattr(hh, op), dd, hedge=hedge, n_paths=npaths, n_times=2)
@@ -722,21 +855,22 @@ def check(ctx):
                 # what the model is told: the operation, and for the ones that simulate inside the draws, re-created under the operation's seed (the
                 # real call consumed random numbers in `derivative.simulate` only); the underlier ends in the series of the last draw once more
                 obs = observed()
-                if op in ("compute_loss", "price", "fit"):
+                if mop in ("compute_loss", "price", "fit"):
                     torch.manual_seed(seed)
                     draws = []
-                    for _ in range(2):
+                    for _ in range(4 if op == "fit_val" else 2):          # fit with validation: training batch, validation batch per epoch
                         d_used[di].simulate(n_paths=npaths)
                         draws.append([series_json(u_used)])
-                    if op == "fit":
+                    if mop == "fit":
                         if optname == "Adam" and any(bool(((g_.abs() < 1e-6) & (g_.abs() > 0)).any()) for gs in seen_grads for g_ in gs):
                             # Adam divides by sqrt(g^2) + 1e-8: a gradient component that is zero up to rounding has no stable update (harness/c15.py)
                             ctx.stats["hedger_session:cut_at_adam_gradient_component_near_zero"] += 1
                             model_ok = False
                         else:
-                            sops.append(["fit", di, href(arg), opt_spec, opt_inst, [{"train": dr, "val": None} for dr in draws]])
+                            sops.append(["fit", di, href(arg), opt_spec, opt_inst, [{"train": dr, "val": None} for dr in draws] if op == "fit" else
+                                         [{"train": draws[2 * e_], "val": [draws[2 * e_ + 1]]} for e_ in range(2)]])
                     else:
-                        sops.append([op, di, href(arg), draws])
+                        sops.append([mop, di, href(arg), draws])
                 else:
                     sops.append([op, di, href(arg)])
                 if model_ok:
@@ -744,19 +878,33 @@ def check(ctx):
                     if r_used[0] == "ok":
                         v_ = v_.detach()
                         v_ = v_.transpose(-1, -2).tolist() if op == "compute_hedge" else [float(x) for x in v_.reshape(-1).tolist()]
-                    sexp.append({"step": i, "op": op, "hedge": arg, "derivative": di, "res": (r_used[0], v_)} | obs)
+                    sexp.append({"step": i, "op": mop, "real_op": op, "hedge": arg, "derivative": di, "res": (r_used[0], v_)} | obs)
             r_new = run(h_new, d_new[di], hedge_arg(arg, u_new, l_new), kk)
             ctx.stats[f"hedge_hist-result:{r_used[0]}"] += 1
             if not same_result(r_used, r_new):
                 v1, v2 = r_used[1], r_new[1]
-                ctx.fail(("the parameters after fit depend" if op == "fit" else "the result of a hedging operation depends") + " on which hedging instruments the hedger was "
-                         "used / fitted with before, or on which series the underlier of a listed hedging instrument held before (differs from a fresh hedger "
+                ctx.fail(("the parameters after fit depend" if mop == "fit" else "the result of a hedging operation depends") + " on which hedging instruments the hedger was "
+                         "used / fitted with before (on gradients an earlier backward pass left on its parameters), or on which series the underlier of a listed hedging instrument held before (differs from a fresh hedger "
                          "with the same parameters on newly constructed instruments holding bit-identical buffers, same `hedge=` argument, same seed)",
                          step_case | {"hedge": arg}, key=f"hedge_history:{op}:{kk}",
                          detail={"reused": f"{getattr(v1, 'dtype', '')} {str(v1)[:200]}", "fresh": f"{getattr(v2, 'dtype', '')} {str(v2)[:200]}"})
                 if not modelable:
                     break
-            if arg == "default" and op != "fit":
+            if was_eval and mop != "fit" and budget[0] > 0:
+                budget[0] -= 1
+                # the history left the hedger in evaluation mode: the fresh hedger as constructed (training mode) answers the same - no module of the model
+                # is documented to depend on the mode
+                h_new_t = Hedger(copy.deepcopy(h_used.model), feats4, criterion=copy.deepcopy(crit4)).train()
+                r_new_t = run(h_new_t, d_new[di], hedge_arg(arg, u_new, l_new), kk)
+                ctx.stats["hedge_hist:compared_with_train_mode"] += 1
+                if not same_result(r_used, r_new_t):
+                    ctx.fail("the result of a hedging operation depends on the history having left the hedger in evaluation mode (fit with validation / eval()): it differs "
+                             "from a fresh hedger with the same parameters as constructed (training mode) on newly constructed instruments holding bit-identical buffers, "
+                             "although no module of the model is documented to depend on the mode", step_case | {"hedge": arg}, key=f"hedge_history:mode:{op}:{kk}",
+                             detail={"used(eval)": str(r_used[1])[:200], "fresh(train)": str(r_new_t[1])[:200]})
+                    if not modelable:
+                        break
+            if arg == "default" and mop != "fit":
                 # the documented meaning of the default: the derivative's underlier(s)
                 r_exp = run(h_used, d_used[di], [u_used], "underlier")
                 if not same_result(r_used, r_exp):
@@ -778,10 +926,10 @@ def check(ctx):
         return case, req, sexp
 
     for it in range(n4):
-        hedge_history(g4, False)
+        hedge_history(g4, False, it)
     g5 = Gen(f"{ctx.seed}:hedger_session")
     n5 = 12 if ctx.tier == "quick" else 120
-    sessions = [r_ for r_ in (hedge_history(g5, True) for _ in range(n5)) if r_ is not None]
+    sessions = [r_ for r_ in (hedge_history(g5, True, j_) for j_ in range(n5)) if r_ is not None]
     try:
         souts = ctx.driver([r_[1] for r_ in sessions])
     except DriverBroken as e:
@@ -810,7 +958,7 @@ def check(ctx):
         for e_, m_ in zip(sexp, steps_):
             ctx.stats["hedger_session_compared"] += 1
             ctx.stats[f"hedger_session:{e_['op']}"] += 1
-            where = case | {k_: e_[k_] for k_ in ("step", "op", "hedge", "derivative") if k_ in e_}
+            where = case | {k_: e_[k_] for k_ in ("step", "op", "real_op", "hedge", "derivative") if k_ in e_}
             out = m_["out"]
             bad = None
             if e_["res"] is None:
@@ -859,7 +1007,10 @@ def check(ctx):
              "(same hedge argument, same seed; parameters after fit compared bitwise), default vs hedge=[underlier] on the same hedger, listed prices vs newly "
              "listed ones; hedger session: 12 / 120 such histories (float64, Linear(-ReLU-Linear), affine pricers, erm / eloss / es, SGD / Adam as class or reused "
              "instance, two derivatives on the one underlier) also executed by the Lean op hedger_session (Model/HedgerSession.lean `step`) on the series "
-             "read off the real instruments; every answer, the parameters and the prev_output buffer after every operation compared (shapes exact, "
+             "read off the real instruments; other hedger state in the histories (I, II, IV, session): loss.backward() through the hedger before fit (Adam / SGD, 2 epochs; fit "
+             "of the used hedger vs fit of a fresh one under the same seed, bitwise), eval() / train(), fit(validation=True); models around nn.LeakyClamp / nn.Clamp "
+             "(band [lo, lo + |w|/4] around the previous hedge / an output); evaluation-mode computations vs a fresh hedger in evaluation mode and (first 3 per history) "
+             "vs a fresh hedger in training mode, bitwise; every answer, the parameters and the prev_output buffer after every operation compared (shapes exact, "
              "values 1e-9 relative); every case non-trivial; distinct = sha1 of canonical case")
 
 
